@@ -340,8 +340,13 @@ pub fn finish(ctx: &Ctx, rep: Report, wall_s: f64) -> i32 {
         cov.insert("unspecified_no_verdict".into(), json!(rep.local.unspecified));
     }
     if rep.level == "model_checking" {
-        cov.insert("states".into(), json!(rep.local.states.len()));
-        cov.insert("transitions".into(), json!(rep.local.transitions));
+        // states/transitions only where the check really explores a state graph (pass states, include-stack
+        // configurations, #if worlds, accepted command lines); checks against a closed-form or executable
+        // reference report the generic keys plus the number of reference predictions compared
+        if !rep.local.states.is_empty() {
+            cov.insert("states".into(), json!(rep.local.states.len()));
+            cov.insert("transitions".into(), json!(rep.local.transitions));
+        }
         cov.insert("traces_validated_against_impl".into(), json!(rep.local.traces_validated));
     }
     cov.insert("known_findings_reobserved".into(), json!(known_hit.iter().map(|(k, (_, n))| json!({"key": k, "cases": n})).collect::<Vec<_>>()));
